@@ -42,7 +42,7 @@ def setup(ctx):
 
 
 def gen_world(rng):
-    parts = [{"cls": rng.choice(["Part", "BigPart"]), "name": rng.choice("ab"), "size": rng.randint(0, 2), "grade": rng.randint(0, 1)}
+    parts = [{"cls": rng.choice(["Part", "BigPart", "MarkedPart"]), "name": rng.choice("ab"), "size": rng.randint(0, 2), "grade": rng.randint(0, 1)}
              for _ in range(rng.randint(2, 5))]
     boxes = []
     shared = [rng.randrange(len(parts)) for _ in range(2)]
@@ -69,7 +69,8 @@ def gen_part_pattern(rng, allow_empty=False):
         attrs["size"] = ["lit", rng.randint(0, 2)]
     if allow_empty and rng.random() < 0.3:
         attrs = {}
-    type_ = rng.choice(["Part", "Part", "BigPart"])
+    # Marked: a type that is not a subclass of the declared element type (a mixin some parts inherit from)
+    type_ = rng.choice(["Part", "Part", "BigPart", "Marked"])
     if type_ == "BigPart" and rng.random() < 0.4:
         attrs["grade"] = ["lit", rng.randint(0, 1)]         # an attribute only the narrower type has
     return {"type": type_, "attrs": attrs}
@@ -156,6 +157,8 @@ def witnesses():
     return {
         "match-any-collapses-equal-collections": {"world": world, "pattern": {"type": "Box", "attrs": {"parts": ["any", [0]]}}, "root_selected": False},
         "literal-on-builtin-collection-is-equality": {"world": world, "pattern": {"type": "Box", "attrs": {"tags": ["lit", "x"]}}, "root_selected": False},
+        "nested-match-mixin-type-not-enforced": {"world": dict(world, parts=[{"cls": "MarkedPart", "name": "a", "size": 0}, {"cls": "Part", "name": "a", "size": 1}]),
+                                                 "pattern": {"type": "Box", "attrs": {"lid": ["match", {"type": "Marked", "attrs": {"name": ["lit", "a"]}}]}}, "root_selected": False},
         "nested-match-subclass-attribute": {"world": dict(world, parts=[{"cls": "BigPart", "name": "a", "size": 0, "grade": 1}, {"cls": "BigPart", "name": "b", "size": 1, "grade": 0}]),
                                             "pattern": {"type": "Box", "attrs": {"lid": ["match", {"type": "BigPart", "attrs": {"grade": ["lit", 1]}}]}}, "root_selected": False},
         "nested-match-on-none-valued-optional": {"world": dict(world, boxes=[dict(world["boxes"][0], spare=0), dict(world["boxes"][1], spare=None)]),
